@@ -392,6 +392,43 @@ struct index_op<false>
     }
 };
 
+// entries reached through the past-the-end iterator of a flat group: back(), *(end() - k), *--end()
+template<bool Flat>
+struct back_op
+{
+    template<typename G, typename EN>
+    static void run(G g, const path& p, std::size_t i, EN en)
+    {
+        if(p[i].k == "gbk")
+        {
+            auto e = g.back();
+            en(e, p, i + 1);
+        }
+        else if(p[i].k == "em")
+        {
+            auto e = *(g.end() - static_cast<typename G::difference_type>(p[i].a));
+            en(e, p, i + 1);
+        }
+        else
+        {
+            auto it = g.end();
+            --it;
+            auto e = *it;
+            en(e, p, i + 1);
+        }
+    }
+};
+
+template<>
+struct back_op<false>
+{
+    template<typename G, typename EN>
+    static void run(G, const path&, std::size_t, EN)
+    {
+        throw bad_path{};
+    }
+};
+
 template<bool Flat, typename G, typename EN, typename HN>
 void group_ops(G g, const path& p, std::size_t i, EN en, HN hn)
 {
@@ -415,6 +452,10 @@ void group_ops(G g, const path& p, std::size_t i, EN en, HN hn)
     else if(t.k == "i")
     {
         index_op<Flat>::run(g, p, i, en);
+    }
+    else if(t.k == "gbk" || t.k == "em" || t.k == "ed")
+    {
+        back_op<Flat>::run(g, p, i, en);
     }
     else if(t.k == "b")
     {
